@@ -181,21 +181,49 @@ func defang(c *pki.Cert, issuer pki.Name, aki *pki.Ext) []byte {
 	return t.TBS(c.Signer.SigAlgDER())
 }
 
+// stable rebuilds a certificate until its (randomised) ECDSA signature has the
+// modal DER length, so that byte-length-indexed families (every prefix) have the
+// same size in every run.
+func stable(build func() *pki.Cert) *pki.Cert {
+	for i := 0; i < 500; i++ {
+		c := build()
+		if c.Signer.Kind != "p256" {
+			return c
+		}
+		n := len(c.DER) - 4 - len(c.TBS) - len(c.Signer.SigAlgDER()) - 3
+		if n < 60 || n > 74 {
+			panic(fmt.Sprintf("harness: unexpected signature length %d", n))
+		}
+		if n == 71 {
+			return c
+		}
+	}
+	panic("harness: no 71-byte signature in 500 attempts")
+}
+
 func newWorld() *world {
 	w := &world{sthTime: 1700000000123, sctTime: 1700000001456}
-	w.root = pki.NewRoot("c12-root", pki.LoadKey("p256-1"))
-	w.ca = pki.NewCA("c12-ca", pki.LoadKey("p256-2"), w.root, pki.CAOpts{})
-	w.preIssuer = pki.NewCA("c12-preissuer", pki.LoadKey("p256-4"), w.ca, pki.CAOpts{EKUs: [][]int{pki.OIDEKUCT}})
+	w.root = stable(func() *pki.Cert { return pki.NewRoot("c12-root", pki.LoadKey("p256-1")) })
+	w.ca = stable(func() *pki.Cert { return pki.NewCA("c12-ca", pki.LoadKey("p256-2"), w.root, pki.CAOpts{}) })
+	w.preIssuer = stable(func() *pki.Cert { return pki.NewCA("c12-preissuer", pki.LoadKey("p256-4"), w.ca, pki.CAOpts{EKUs: [][]int{pki.OIDEKUCT}}) })
 	caHash := w.ca.T.Key.KeyHash()
 	rootHash := w.root.T.Key.KeyHash()
 	piHash := w.preIssuer.T.Key.KeyHash()
 	lk := pki.LoadKey("p256-3")
 	na := map[bool]time.Time{false: time.Date(2025, 6, 1, 12, 0, 0, 0, time.UTC), true: time.Date(2024, 6, 1, 12, 0, 0, 0, time.UTC)}
-	leaf := func(cn string, old bool) *pki.Cert { return pki.NewLeaf(cn, lk, w.ca, pki.LeafOpts{NotAfter: na[old]}) }
+	ser := 0
+	serial := func() []byte { ser++; return []byte{0x12, byte(ser)} }
+	leaf := func(cn string, old bool) *pki.Cert {
+		sn := serial()
+		return stable(func() *pki.Cert { return pki.NewLeaf(cn, lk, w.ca, pki.LeafOpts{NotAfter: na[old], Serial: sn}) })
+	}
 	pre := func(cn string, old bool, parent *pki.Cert) *pki.Cert {
 		aki := parent.T.Key.KeyHash()
-		return pki.NewLeaf(cn, lk, parent, pki.LeafOpts{NotAfter: na[old],
-			Exts: []pki.Ext{pki.ExtSAN(cn + ".example"), pki.ExtAKI(aki[:20]), pki.ExtPoison()}})
+		sn := serial()
+		return stable(func() *pki.Cert {
+			return pki.NewLeaf(cn, lk, parent, pki.LeafOpts{NotAfter: na[old], Serial: sn,
+				Exts: []pki.Ext{pki.ExtSAN(cn + ".example"), pki.ExtAKI(aki[:20]), pki.ExtPoison()}})
+		})
 	}
 	mkX := func(name string, old bool) *submission {
 		l, lx := leaf(name, old), leaf(name+"-other", old)
@@ -295,6 +323,18 @@ func sigModes() []sigMode {
 		{name: "sig:trailing-tls-byte-after-DigitallySigned", make: func(kc *keyCfg, m []byte) []byte { return append(honestDS(kc.k, hSHA256, m), 0) }},
 		{name: "sig:trailing-byte-inside-signature-opaque", make: func(kc *keyCfg, m []byte) []byte {
 			return dsEnc(hSHA256, sigAlgOf(kc.k), append(append([]byte{}, signRaw(kc.k, hSHA256, m)...), 0))
+		}},
+		{name: "sig:ecdsa-long-form-length", make: func(kc *keyCfg, m []byte) []byte {
+			s := signRaw(kc.k, hSHA256, m) // 30 LL ... -> 30 81 LL ... (BER, not DER)
+			return dsEnc(hSHA256, sigAlgOf(kc.k), append([]byte{s[0], 0x81}, s[1:]...))
+		}},
+		{name: "sig:ecdsa-r-zero-padded", make: func(kc *keyCfg, m []byte) []byte {
+			s := signRaw(kc.k, hSHA256, m) // 30 LL 02 RL r.. -> 30 LL+1 02 RL+1 00 r..
+			if s[0] != 0x30 || s[2] != 0x02 {
+				return dsEnc(hSHA256, sigAlgOf(kc.k), append([]byte{0}, s...))
+			}
+			o := append([]byte{0x30, s[1] + 1, 0x02, s[3] + 1, 0x00}, s[4:]...)
+			return dsEnc(hSHA256, sigAlgOf(kc.k), o)
 		}},
 		{name: "sig:DigitallySigned-cut-1", make: func(kc *keyCfg, m []byte) []byte { d := honestDS(kc.k, hSHA256, m); return d[:len(d)-1] }},
 		{name: "sig:length-prefix+1", make: func(kc *keyCfg, m []byte) []byte { d := honestDS(kc.k, hSHA256, m); d[3]++; return d }},
